@@ -3,6 +3,7 @@ package main
 import (
 	"bytes"
 	"fmt"
+	"net"
 	"strings"
 
 	"github.com/insomniacslk/dhcp/dhcpv4"
@@ -152,6 +153,30 @@ func oracleC04(r *Rng, n int, thorough bool, seeds []string) *OracleResult {
 			case err == nil:
 				if d := diffRef4(ref, q); d != "" {
 					what = "decoded value differs from the RFC reading: " + d
+					break
+				}
+				// the decoded packet is the caller's: a server fills yiaddr in place, a relay
+				// giaddr - what is decoded AFTERWARDS still is the RFC reading of its bytes
+				// (seeded change C04-17: every zero address field of every decoded packet
+				// one shared package-level value)
+				for _, ip := range []net.IP{q.ClientIPAddr, q.YourIPAddr, q.ServerIPAddr, q.GatewayIPAddr} {
+					for i := range ip {
+						ip[i] = 0xa5
+					}
+				}
+				for i := range q.ClientHWAddr {
+					q.ClientHWAddr[i] = 0xa5
+				}
+				for _, v := range q.Options {
+					for i := range v {
+						v[i] = 0xa5
+					}
+				}
+				q2, err2 := dhcpv4.FromBytes(append([]byte{}, b...))
+				if err2 != nil {
+					what = "the same bytes are rejected after the first decoded packet was written to: " + err2.Error()
+				} else if d := diffRef4(ref, q2); d != "" {
+					what = "after the fields of the first decoded packet were overwritten in place, the value decoded from the same bytes differs from the RFC reading: " + d
 				}
 			}
 		}()
